@@ -8,16 +8,19 @@
 
     (P1) the parser extracts exactly the declared names, ids, parameters (order, type, vector and flag
          markers) and result types, for any schema of the documented subset — `parse_render`,
-         `parse_document`, `parse_structure`;
+         `parse_document`, `parse_structure`, `parse_definition`; it terminates on every text —
+         `parse_terminates`; the cursor model is cursor.go's index arithmetic — `cursor_index_arithmetic`;
     (P2) the generated package declares those constructors with those ids, field layouts and flag
          positions — classification and declarations: `classify_spec`, `classify_groups`,
-         `ctor_name_rule`, `emit_ids`; that the *real* generator's files are this is translation
+         `ctor_name_rule`, `emit_ids`, `emit_fields`, `emit_flag_index`; that the *real* generator's files are this is translation
          validation by the harness (observed, not proved), as is "compiles";
     (P3) reproducible output, and the shipped input schema is accepted — observed by the harness.
 
   Helper lemmas are in Mtv/Lemmas/C14*.lean.
 -/
 import Mtv.Lemmas.C14Example
+import Mtv.Lemmas.C14Progress
+import Mtv.Lemmas.C14Emit
 namespace Mtv.Tlgen
 
 /-! ## (P1) the parser -/
@@ -112,6 +115,23 @@ theorem cursor_index_arithmetic (c : Cursor) (n : Nat) :
 /-- `Skip(5)` two runes before the end stops on the last rune; `Unread(9)` from there stops at 0 -/
 example : ((Cursor.atRem [] (cs!"ab;\n")).skip 1 |>.skip 5).pos = 3 ∧
     (((Cursor.atRem [] (cs!"ab;\n")).skip 3).unread 9).pos = 0 := by decide +kernel
+
+/-- **Termination, for every input** (not only for well-formed schemas). The model runs the two loops
+of the parser on fuel (`2·len+2` iterations of the main loop — more would repeat a loop-head state —
+and `runes left + 2` for the parameter loop) and answers `loop` when it runs out. It never does: every
+cursor operation moves forward or not at all, the one backward move (`Unread` after the look-ahead
+word of `parseDefinition`) returns exactly to where the look-ahead started, and every repeated
+iteration has consumed at least one rune. This holds for the *repaired* cursor and parser: before
+/verif/pending_fixes/C14-1-cursor-isnext-restore.patch and C14-3-parser-unread-runes.patch the Go code
+did not terminate on `"//\n-"` (once plain comments are accepted) and on `"true#;€€€ "`; both texts are
+replayed against the real code on every run (corpus/c14.ops). -/
+theorem parse_terminates (src : Str) : parseSchema src ≠ .error .loop :=
+  parseSchema_never_loops src
+
+/-- the two former witnesses of non-termination now parse (to the empty schema) -/
+example : (parseSchema (cs!"//\n-")).toOption = some { objects := [], methods := [], typeComments := [] } ∧
+    (parseSchema (cs!"true#;€€€ ")).toOption = some { objects := [], methods := [], typeComments := [] } := by
+  decide +kernel
 
 /-! ## (P2) classification and declarations -/
 
@@ -238,6 +258,37 @@ theorem emit_ids (goify : Str → Str) (s : Schema) (ds : List Decl) (ms : List 
         split at hd
         · simp at hd; subst hd; rfl
         · simp at hd
+
+/-- **Field layout.** The fields of a generated struct are the schema's parameters other than the
+`flags:#` word, in the schema's order, each with its name, vector marker, `tl` tag (`flag:N` for a
+conditional field, `,encoded_in_bitflags` appended for type `true`) and the Go type its schema type
+maps to. -/
+theorem emit_fields (objs : List Obj) (ps : List Param) (fs : List GoField) (h : fieldsOf objs ps = some fs) :
+    fs.map (fun f => (f.name, f.vec, f.tag)) =
+      (ps.filter fun p => p.type ≠ kwBitflags).map (fun p => (p.name, p.isVector, tagOf p)) ∧
+    fs.map (fun f => some f.type) = (ps.filter fun p => p.type ≠ kwBitflags).map (fun p => goTypeOf objs p.type) :=
+  fieldsOf_spec objs ps fs h
+
+example : ∃ fs, fieldsOf exSchema.objects exSettings.params = some fs ∧
+    fs.map (fun f => (f.name, f.vec, f.tag)) =
+      [(cs!"silent", false, cs!"flag:5,encoded_in_bitflags"), (cs!"user_ids", true, [])] := by
+  cases h : fieldsOf exSchema.objects exSettings.params with
+  | none => exact absurd h (by decide +kernel)
+  | some fs =>
+    refine ⟨fs, rfl, ?_⟩
+    rw [(emit_fields _ _ _ h).1]
+    decide +kernel
+
+/-- **Flag position.** `FlagIndex()` is generated exactly when some field is conditional, and its
+value is the position of a `flags:#` parameter in the schema's parameter list. -/
+theorem emit_flag_index (ps : List Param) :
+    (flagIndexOf ps = some none ↔ ps.any (·.isOptional) = false) ∧
+    (∀ i, flagIndexOf ps = some (some i) →
+      ps.any (·.isOptional) = true ∧ ∃ p, ps[i]? = some p ∧ p.name = kwFlagsWord ∧ p.type = kwBitflags) :=
+  flagIndexOf_spec ps
+
+example : flagIndexOf exSettings.params = some (some 0) ∧ flagIndexOf exGetPeers.params = some none := by
+  decide +kernel
 
 /-- the model of the generator does emit for the example schema, and the ids are the schema's -/
 example : ∃ ds ms, emit id exSchema = some (ds, ms) ∧ ds.map (·.crc) = [0x7efe0e, 0x733f2961] ∧
